@@ -51,6 +51,13 @@ impl AsyncCoreExt {
         #[allow(unused_mut)]
         let mut builder = Builder::new_current_thread();
 
+        // All work that becomes runnable during a module event must be finished before
+        // the event ends. There are no external event sources to poll, so never hand
+        // control back to the (empty) driver in the middle of a batch of runnable tasks:
+        // with the default interval of 61 the 62nd runnable task of an event would be
+        // delayed until the module's next event.
+        builder.event_interval(u32::MAX);
+
         #[cfg(feature = "unstable-tokio-enable-time")]
         builder.enable_time();
 
@@ -67,6 +74,7 @@ impl AsyncCoreExt {
         self.rt = Rt::Runtime((
             Arc::new(
                 Builder::new_current_thread()
+                    .event_interval(u32::MAX)
                     .rng_seed(RngSeed::from_bytes(&random::<u64>().to_le_bytes()))
                     .build()
                     .expect("Failed to build tokio runtime"),
